@@ -93,7 +93,7 @@ seq_t dtw_warping_paths{{ suffix }}{{ suffix2 }}(seq_t *wps,
     idx_t ri, ci, min_ci, max_ci, wpsi, wpsi_start;
 
     // Top row: ri = -1
-    for (wpsi=0; wpsi<settings->psi_2b+1; wpsi++) {
+    for (wpsi=0; wpsi<MIN(settings->psi_2b+1, p.width); wpsi++) {
         // ci = wpsi - 1
         wps[wpsi] = 0;
     }
@@ -431,7 +431,8 @@ seq_t dtw_warping_paths{{ suffix }}{{ suffix2 }}(seq_t *wps,
 //    dtw_print_wps(wps, l1, l2, settings);
 
     seq_t rvalue = 0;
-    idx_t final_wpsi = ri_widthp + wpsi - 1;
+    // Location of cell (l1, l2); wpsi is not reliable after a pruning break
+    idx_t final_wpsi = dtw_wps_loc(&p, l1, l2, l1, l2);
     // Deal with Psi-relaxation
     if (return_dtw && settings->psi_1e == 0 && settings->psi_2e == 0) {
         rvalue = wps[final_wpsi];
@@ -443,7 +444,8 @@ seq_t dtw_warping_paths{{ suffix }}{{ suffix2 }}(seq_t *wps,
         // Find smallest value in last column
         if (settings->psi_1e != 0) {
             wpsi = final_wpsi;
-            for (ri=l1-1; ri>l1-settings->psi_1e-2; ri--) {
+            // Only rows that have the last column inside the band
+            for (ri=l1-1; ri>l1-settings->psi_1e-2 && ri>=MAX(0, MIN(l1, l2) - p.window); ri--) {
                 if (wps[wpsi] < mir_value) {
                     mir_value = wps[wpsi];
                     mir_rel = ri + 1;
@@ -456,7 +458,8 @@ seq_t dtw_warping_paths{{ suffix }}{{ suffix2 }}(seq_t *wps,
         // Find smallest value in last row
         if (settings->psi_2e != 0) {
             wpsi = final_wpsi;
-            for (ci=l2-1; ci>l2-settings->psi_2e-2; ci--) {
+            // Only columns of the last row that are inside the band
+            for (ci=l2-1; ci>l2-settings->psi_2e-2 && ci>=MAX(0, l1 - p.ldiffr - p.window); ci--) {
                 if (wps[wpsi] < mic_value) {
                     mic_value = wps[wpsi];
                     mic = ci + 1;
@@ -472,19 +475,15 @@ seq_t dtw_warping_paths{{ suffix }}{{ suffix2 }}(seq_t *wps,
             // last column has smallest value
             if (psi_neg) {
                 for (idx_t ri=mir_rel + 1; ri<l1 + 1; ri++) {
-                    wpsi = ri*p.width + (p.width - 1);
+                    wpsi = final_wpsi - (l1 - ri)*p.width;
                     wps[wpsi] = -1;
                 }
             }
             rvalue = mir_value;
         } else {
-            // last row has smallest value
-            if (psi_neg) {
-                for (ci=p.width - (l2 - mic); ci<p.width; ci++) {
-                    wpsi = l1*p.width + ci;
-                    if (p.window != 0 && p.window != l2) {
-                        wpsi--;
-                    }
+            // last row has smallest value (mic == 0: no value found, nothing to mark)
+            if (psi_neg && mic != 0) {
+                for (wpsi=final_wpsi - (l2 - mic) + 1; wpsi<=final_wpsi; wpsi++) {
                     wps[wpsi] = -1;
                 }
             }
@@ -494,7 +493,12 @@ seq_t dtw_warping_paths{{ suffix }}{{ suffix2 }}(seq_t *wps,
         rvalue = -1;
     }
 
+    {%- if "euclidean" == inner_dist or "affinity" in suffix %}
     if (settings->max_dist > 0 && rvalue > settings->max_dist) {
+    {%- else %}
+    // rvalue is still in the internal (squared) representation here
+    if (settings->max_dist > 0 && rvalue > pow(settings->max_dist, 2)) {
+    {%- endif %}
         // DTWPruned keeps the last value larger than max_dist. Correct for this.
         rvalue = {{infinity}};
     }
